@@ -313,9 +313,9 @@ fn search(ctx: &Ctx, rep: &mut Report, upload: bool) {
 }
 
 fn retention(ctx: &Ctx, rep: &mut Report) {
-    let mut counts: Vec<u64> = vec![1, 2, 3, 5, 10, 50, 100, 500, 1000, 2000];
+    let mut counts: Vec<u64> = vec![1, 2, 3, 5, 10, 50, 100, 500, 1000, 2000, 5000];
     if ctx.thorough() {
-        counts.extend([5000, 20000]);
+        counts.extend([20_000, 70_000, 150_000]);
     }
     // expiry durations: one hour, just above 2^32 ms (~49.7 days), ten years
     let expiries: [u64; 3] = [3_600_000, (1u64 << 32) + 50, 315_360_000_000];
@@ -323,13 +323,17 @@ fn retention(ctx: &Ctx, rep: &mut Report) {
     ctx.family(
         rep,
         "retention-under-load",
-        "expiry {one hour, 2^32+50 ms, ten years}; a transfer on key K is started, 300 ms pass, then 1..2000 requests on other keys (1 ms apart, every one on a distinct key; thorough: up to 20000), then the follow-up on K: served from the cache / the upload completes with its buffered bytes",
+        "expiry {one hour, 2^32+50 ms, ten years}; a transfer on key K is started, 300 ms pass, then 1..2000 requests on other keys (1 ms apart, every one on a distinct key; quick up to 5000, thorough up to 150000), then the follow-up on K: served from the cache / the upload completes with its buffered bytes",
         n,
         true,
         |i, rep| {
             let c = counts[((i / 2) % counts.len() as u64) as usize];
             let upload = i % 2 == 1;
             let expiry = expiries[(i / 2 / counts.len() as u64) as usize];
+            if c > 5000 && expiry != expiries[0] {
+                rep.count("skipped-very-many-keys-only-at-the-one-hour-expiry");
+                return;
+            }
             clock::reset();
             let mut srv = Server::new(BUDGET, Duration::from_millis(expiry));
             let app = |call: &AppCall| -> AppReply {
